@@ -53,6 +53,7 @@ class Engine:
         self.qfacts = []              # global lazily-instantiated facts
         self.contracts_used = set()
         self._alias_cache = {}
+        self.axiom_ids = set()        # ids of valid facts (UF inverse axioms, ghost lengths >= 0, definitional equations of fresh symbols)
         self.use_contracts = {}       # qname -> contract (set by the driver for the function under check)
         self.max_depth = 14
         self.unroll_limit = 8
@@ -95,6 +96,7 @@ class Engine:
         for a in ax:
             kk = (k, a.get_id())
             present = any(p is a or (is_z3(p) and p.get_id() == a.get_id()) for p in st.pc[-60:])
+            self.axiom_ids.add(a.get_id())
             if not present: st.pc.append(a)
 
     def elem_ref(self, st, vref, idx):
@@ -834,7 +836,8 @@ class Engine:
         """s2 was forked from st under `cond` to evaluate a sub-expression; fold its effects back"""
         extra = s2.pc[len(st.pc) + 1:]
         for e in extra:
-            st.pc.append(e.guarded(cond) if isinstance(e, QForall) else z3.Implies(cond, e))
+            if is_z3(e) and e.get_id() in self.axiom_ids: st.pc.append(e)
+            else: st.pc.append(e.guarded(cond) if isinstance(e, QForall) else z3.Implies(cond, e))
         for t_ in s2.throws:
             st.throws.append(t_)
         if s2.ghost.get('epoch', 0) != st.ghost.get('epoch', 0):
@@ -1030,6 +1033,10 @@ class Engine:
     def bind_args(self, params, arg_nodes, st, fr, callee_env):
         for p, a in zip(params, arg_nodes):
             pt = TY.of_node(p)
+            if a.get('kind') == 'CXXDefaultArgExpr' and not a.get('inner'):
+                init = [c for c in p.get('inner', []) if 'kind' in c]
+                if not init: raise Unsupported('default argument of %s is not in the AST' % p.get('name'))
+                a = init[0]
             if pt.ref:
                 v = self.ev(a, st, fr)
                 if not isinstance(v, LVS): v = self.materialize(st, v, a)
@@ -1327,6 +1334,7 @@ class Engine:
                 sym = self.fresh('L.' + d.get('name', 'v'), v.sort())
                 eq = sym == v
                 st.pc.append(eq)
+                self.axiom_ids.add(eq.get_id())
                 self.def_eqs[eq.get_id()] = (sym, v, d.get('name'))
                 v = sym
             st.env[d['id']] = v
